@@ -24,10 +24,10 @@ impl Prop for C14 {
     }
     fn phases(&self, tier: Tier) -> Vec<Phase> {
         let mut v = vec![
-            Phase::new("rounds", tier.pick(1200, 30_000)).min_cases(tier.pick(400, 10_000)).timeouts(180, tier.pick(500, 3000)),
-            Phase::new("std-imports", tier.pick(800, 30_000)).min_cases(tier.pick(300, 10_000)).timeouts(400, tier.pick(600, 3000)),
-            Phase::new("channel-rounds", tier.pick(600, 20_000)).min_cases(tier.pick(200, 6000)).timeouts(400, tier.pick(600, 3000)),
-            Phase::new("rounds-asan", tier.pick(120, 3000)).build(Build::Asan).min_cases(tier.pick(40, 1000)).timeouts(300, tier.pick(500, 3000)),
+            Phase::new("rounds", tier.pick(1200, 7000)).min_cases(tier.pick(400, 2000)).timeouts(180, tier.pick(500, 3000)),
+            Phase::new("std-imports", tier.pick(500, 2400)).min_cases(tier.pick(150, 700)).timeouts(400, tier.pick(600, 3000)),
+            Phase::new("channel-rounds", tier.pick(600, 7000)).min_cases(tier.pick(200, 2000)).timeouts(400, tier.pick(600, 3000)),
+            Phase::new("rounds-asan", tier.pick(80, 300)).build(Build::Asan).min_cases(tier.pick(25, 80)).timeouts(300, tier.pick(500, 3000)),
         ];
         if tier == Tier::Thorough {
             v.push(Phase::new("rounds-tsan", 1500).build(Build::Tsan).min_cases(300).timeouts(600, 3000));
